@@ -26,7 +26,7 @@ EXPLANATION = (
     "in normal form with the zero-mean override 0, 0, -1. R-C05-5: the single- and multi-point branches of collective map "
     "every shared column to the same source (debug_output is single-point only). R-C05-6: the running strain maximum is "
     "updated only on the load-increase branch, the minimum on the other, both against the current point's strain.")
-EXPLANATION += (' R-C05-7: visited strains are one list split at a counter; every append is followed by `if run_index == 1: counter += 1`, the counter changes nowhere else, the accessors return [:counter] and [counter:]. R-C05-8: a decision taken on the first assessment point and applied to all points compares loads or sample positions, or the same field of the two ends of the closing branch (monotone branch); any other first-point comparison of stresses/strains is a violation. R-C05-9: chunk-relative positions (global position minus head index before the chunk); the repair of a turning point lying in the carried tail is guarded by a complete sign test (< 0), and the stored sample is the last load step of the chunk.')
+EXPLANATION += (' R-C05-7: visited strains are one list split at a counter; every append is followed by `if run_index == 1: counter += 1`, the counter changes nowhere else, the accessors return [:counter] and [counter:]. R-C05-8: a decision taken on the first assessment point and applied to all points compares loads or sample positions only (proportional histories order loads alike at every point); any first-point comparison of stresses or strains is a violation - they are nonlinear in the load factor, and with a binned law even the two ends of one branch can tie at one point and differ at another. R-C05-9: chunk-relative positions (global position minus head index before the chunk); the repair of a turning point lying in the carried tail is guarded by a complete sign test (< 0), and the stored sample is the last load step of the chunk.')
 ASSUMPTIONS = ["pd.concat([a, b]) appends b after a"]
 
 LISTS = ["_loads_min", "_loads_max", "_S_min", "_S_max", "_epsilon_min", "_epsilon_max", "_epsilon_min_LF",
@@ -570,7 +570,7 @@ def _r8(ctx):
     comparison of stresses or strains - e.g. a running extreme against the current strain - is a violation; such
     selections have to be element-wise."""
     prog = ctx.prog
-    ctx.rule("R-C05-8", floor=6, what="first-point decisions compare loads, or the same field of the two ends of one closed branch")
+    ctx.rule("R-C05-8", floor=3, what="decisions taken on the first assessment point compare loads or sample positions only")
     ci = prog.cls(D[:-1])
     # per-point attributes of kind stress/strain: assigned (transitively) from .strain / .stress of a point
     ekind = set()
@@ -650,21 +650,14 @@ def _r8(ctx):
                         n_ok += 1
                         ctx.holds(f, n, "%s: first-point decision %s compares loads (ordered alike at all points)" % (f.name, norm_text(c)))
                     continue
-                if ends is None:
-                    ends = branch_end_params(f)
-                same_field = isinstance(l, ast.Attribute) and isinstance(r, ast.Attribute) and l.attr == r.attr and \
-                    isinstance(l.value, ast.Name) and isinstance(r.value, ast.Name) and \
-                    {ends.get(l.value.id), ends.get(r.value.id)} == {-1, -2}
-                if same_field:
-                    n_ok += 1
-                    ctx.holds(f, n, "%s: first-point decision %s compares the %s of the two ends of the closing branch "
-                              "(monotone branch: same order at every point)" % (f.name, norm_text(c), l.attr))
+                if False:
+                    pass
                 else:
-                    ctx.violated(f, n, "%s: %s decides on the first assessment point only, but compares stresses/strains that "
-                                 "are not the two ends of one branch; with several assessment points the other points can be "
-                                 "ordered differently (nonlinear law), so they get values they would not get when processed "
-                                 "alone. Select element-wise (np.maximum / np.minimum / np.where)" % (f.name, norm_text(c)),
-                                 text=norm_text(c))
+                    ctx.violated(f, n, "%s: %s decides on the first assessment point only, but compares stresses/strains; "
+                                 "with several assessment points the other points can be ordered differently (nonlinear law; with "
+                                 "a binned law even the two ends of one branch can tie at one point and differ at another), so "
+                                 "they get values they would not get when processed alone. Select element-wise (np.maximum / "
+                                 "np.minimum / np.where) or decide by the loads" % (f.name, norm_text(c)), text=norm_text(c))
 
 # =========================================================================== variants
 
@@ -704,12 +697,14 @@ def variants():
 
     def first_point_where(tree):
         f = find_func(tree, C + "_handle_case_c_ii")
-        for n in ast.walk(f):
-            if isinstance(n, ast.IfExp) and "strain" in ast.unparse(n.test):
-                n.test = parse_expr("previous_point_0.strain.values[0] < self._epsilon_min_LF.values[0]")
+        for i, st in enumerate(f.body):
+            if isinstance(st, ast.Assign) and isinstance(st.targets[0], ast.Name) and "np.minimum" in ast.unparse(st.value) and \
+                    "strain" in ast.unparse(st.value):
+                f.body[i] = parse_stmt("%s = previous_point_0.strain if previous_point_0.strain.values[0] < "
+                                       "previous_point_1.strain.values[0] else previous_point_1.strain" % st.targets[0].id)
                 return True
         return False
-    out.append(witness("hysteresis strain minimum decided against the running minimum of the first point", FN, first_point_where, "R-C05-8"))
+    out.append(witness("hysteresis strain minimum chosen for all points by the first point's strains", FN, first_point_where, "R-C05-8"))
 
     def extremes_swapped_args(tree):
         f = find_func(tree, C + "_hcm_update_min_max_strain_values")
